@@ -95,6 +95,13 @@ dur_args = st.fixed_dictionaries({}, optional={"years": st.integers(-10, 10), "m
                                                "microseconds": st.integers(-10**7, 10**7), "milliseconds": st.integers(-5000, 5000)})
 
 
+# float arguments with a sub-microsecond part (the constructor accepts floats like timedelta does): the copy must round exactly like the original
+dur_args_float = st.fixed_dictionaries({}, optional={
+    "milliseconds": st.sampled_from([1.2346, 0.0007, -2.5005, 41.0005, 0.0005, 1.5]) | st.floats(-5000, 5000, allow_nan=False).map(lambda x: round(x, 4)),
+    "microseconds": st.sampled_from([1.6, 0.5, -0.5, 2.5, 1.49, 999999.5]) | st.floats(-10**6, 10**6, allow_nan=False).map(lambda x: round(x, 1)),
+    "seconds": st.sampled_from([3, 0.0000016, 1.0000005]) | st.integers(-100, 100), "years": st.integers(-2, 2), "weeks": st.integers(-2, 2)})
+
+
 @st.composite
 def spec(draw):
     k = draw(st.sampled_from(["overlap", "aware", "aware", "naive", "fixed", "date", "time", "time_tz", "duration", "duration", "absduration", "interval", "interval",
@@ -123,7 +130,7 @@ def spec(draw):
         c["w"] = draw(S.uni(S.LO_U, S.HI_U))
         c["fold"] = draw(st.integers(0, 1))
     elif k in ("duration", "absduration"):
-        c["args"] = draw(st.one_of(dur_args, dur_args, S.ym_cancel_args()))
+        c["args"] = draw(st.one_of(dur_args, dur_args, S.ym_cancel_args(), dur_args_float))
     elif k in ("interval", "date_interval"):
         c["z2"] = draw(S.zones())
         c["u1"] = draw(st.one_of(S.instant_near_transition(z), S.uniform_instant()))
@@ -221,6 +228,7 @@ class AllOverlaps(Sub):
     ambient = True
     name = "all_overlaps"
     kind = "enum"
+    case_timeout = 900.0
     backends = ("rust",)
     n = {"quick": 0, "thorough": 0}
     shards = {"quick": 4, "thorough": 16}
